@@ -11,6 +11,14 @@ import Glom.Model.C20Env
                  "deadlock":bool}}
   Out = {"val":str} | {"err":[cls,text]}
   The events of a call are the shared-state accesses logged while the call ran alone.
+
+  Re-entry cases whose outer call the model of the error bookkeeping can express carry
+         "rspec":{"spec":RSpec, "labels":[repr…], "errs":[[id,class]…]}   and   "impl":{…, "skeleton":[[depth,kind,text]…]}
+  RSpec = ["pure"] | ["leaf",label,["ok"]|["err",id]] | ["sub",label,c] | ["coal",label,c] | ["both",x,y] |
+          ["orElse",x,y] | ["andThen",x,y] | ["reent",label,"isolated"|"spec"|"kw",inner,after]
+  ("spec" / "kw": the scope of the running call handed to Spec.glom / to glom(), which reset what the
+  CURRENT source resets: extracted facts); the model runs the call (`Re.runCall`) and its error class
+  and trace skeleton are compared with the implementation's.
 -/
 namespace Glom.C20.Driver
 open Lean Glom.C20
@@ -72,6 +80,44 @@ partial def countUser : List Event → Nat
   | .nested evs _ :: r => countUser evs + countUser r
   | _ :: r => countUser r
 
+partial def rspecOfJson (j : Json) : Except String Re.RSpec := do
+  match ← arr j with
+  | [.str "pure"] => return .pure 0
+  | [.str "leaf", lab, r] =>
+    let l ← lab.getNat?
+    match ← arr r with
+    | [.str "ok"] => return .leaf l (.ok 0)
+    | [.str "err", id] => return .leaf l (.error (.raised (← id.getNat?)))
+    | _ => throw s!"bad leaf outcome {r.compress}"
+  | [.str "sub", lab, c] => return .sub (← lab.getNat?) (← rspecOfJson c)
+  | [.str "coal", lab, c] => return .coal (← lab.getNat?) (← rspecOfJson c)
+  | [.str "both", x, y] => return .both (← rspecOfJson x) (← rspecOfJson y)
+  | [.str "orElse", x, y] => return .orElse (← rspecOfJson x) (← rspecOfJson y)
+  | [.str "andThen", x, y] => return .andThen (← rspecOfJson x) (← rspecOfJson y)
+  | [.str "reent", lab, .str how, i, a] =>
+    let h : Re.How ← (match how with
+      | "isolated" => pure Re.How.isolated
+      | "spec" => pure (Re.How.handed (resetsOf genFacts.specGlomResets))
+      | "kw" => pure (Re.How.handed (resetsOf genFacts.glomResets))
+      | _ => throw s!"bad how {how}")
+    return .reent (← lab.getNat?) h (← rspecOfJson i) (← rspecOfJson a)
+  | _ => throw s!"bad rspec {j.compress}"
+
+def take24 (s : String) : String := String.ofList (s.toList.take 24)
+
+def errClass (errs : List (Nat × String)) : Re.Err → String
+  | .raised id => (dlookup id errs).getD "?"
+  | .coalesce _ => "CoalesceError"
+  | .indexError => "IndexError"
+
+/-- a trace line as the harness reads it off the rendered text: depth, kind, the first characters
+    of the spec's repr (the implementation truncates long ones) / the class of the error -/
+def skelLine (labels : List String) (errs : List (Nat × String)) (x : Nat × Re.Line) : Nat × String × String :=
+  match x.2 with
+  | .spec l => (x.1, "S", take24 ((labels[l]?).getD "?"))
+  | .branching l => (x.1, "S", take24 ((labels[l]?).getD "?"))   -- `+` is not always legible in the text
+  | .error e => (x.1, "X", errClass errs e)
+
 def sortStrs (xs : List String) : List String := (xs.toArray.qsort (· < ·)).toList
 
 def dedup (xs : List String) : List String :=
@@ -116,13 +162,38 @@ def run (j : Json) : Except String Json := do
   let iTypes := sortStrs (dedup (tc.map fun e => e.1.1 ++ ":" ++ e.1.2))
   let finished := sys.threads.all fun p => match p with | .done _ => true | _ => false
   let mOutsV := sys.threads.filterMap fun p => match p with | .done o => some o | _ => none
-  let agree := finished && mOutsV == iOuts && mPaths == iPaths && mTypes == iTypes && !deadlock
+  -- the model of the error bookkeeping, for the re-entry cases it can express
+  let (reAgree, reModel) ← (match j.getObjVal? "rspec" with
+    | .ok rj => do
+      let spec ← rspecOfJson (← rj.getObjVal? "spec")
+      let labels ← (← arr (← rj.getObjVal? "labels")).mapM fun x => x.getStr?
+      let errs ← (← arr (← rj.getObjVal? "errs")).mapM fun e => do
+        match ← arr e with
+        | [id, .str c] => return (← id.getNat?, c)
+        | _ => throw s!"bad errs entry {e.compress}"
+      let iSkel ← (match impl.getObjVal? "skeleton" with
+        | .ok (.arr a) => a.toList.mapM fun l => do
+          match ← arr l with
+          | [d, .str k, .str t] => return (← d.getNat?, k, if k == "X" then t else take24 t)
+          | _ => throw s!"bad skeleton line {l.compress}"
+        | _ => pure [])
+      match Re.runCall spec, iOuts.head? with
+      | .val _, some (.val _) => pure (true, Json.mkObj [("outcome", "value")])
+      | .err e tr, some (.err c _) =>
+        let mSkel := tr.map (skelLine labels errs)
+        let mj := Json.arr (mSkel.map fun (d, k, t) => Json.arr #[toJson d, k, t]).toArray
+        pure (errClass errs e == c && mSkel == iSkel, Json.mkObj [("outcome", errClass errs e), ("skeleton", mj)])
+      | .val _, _ => pure (false, Json.mkObj [("outcome", "value")])
+      | .err e _, _ => pure (false, Json.mkObj [("outcome", errClass errs e)])
+    | .error _ => pure (true, Json.null))
+  let agree := finished && mOutsV == iOuts && mPaths == iPaths && mTypes == iTypes && !deadlock && reAgree
   let nYield := (threads.map (fun t => countUser t.1)).foldl (· + ·) 0
   let anyErr := alone.any fun o => match o with | .err _ _ => true | _ => false
   let shape := if threads.any (fun t => t.1.any fun e => match e with | .nested _ _ => true | _ => false)
-    then "nested" else if (j.getObjVal? "schedule").toOption.isSome then "scheduled" else "free"
+    then (if (j.getObjVal? "rspec").toOption.isSome then "reentry-modelled" else "nested") else if (j.getObjVal? "schedule").toOption.isSome then "scheduled" else "free"
   return Json.mkObj [("agree", agree), ("holds", holds),
-    ("model", Json.mkObj [("outs", Json.arr mOuts.toArray), ("paths", toJson mPaths), ("types", toJson mTypes)]),
+    ("model", Json.mkObj [("outs", Json.arr mOuts.toArray), ("paths", toJson mPaths), ("types", toJson mTypes),
+      ("reentry", reModel)]),
     ("branch", s!"{shape}-{threads.length}threads-{if anyErr then "with-error" else "all-ok"}"),
     ("yields", nYield),
     ("why", if holds then "" else if deadlock then "deadlock" else if iOuts != alone then "a call's outcome differs from its outcome alone" else "a cache entry differs from a fresh parse / lookup")]
